@@ -34,16 +34,16 @@ type frame struct {
 
 // Interp interprets function bodies of /repo on the abstract domain.
 type Interp struct {
-	D       *Dom
-	Prog    *load.Program
-	funcs   map[types.Object]funcInfo
-	live    Node
-	logs    []map[*Cell]Value // write logs of the enclosing symbolic branches
-	frames  []*frame
-	depth   int
-	Steps   int
-	Called  map[string]bool // functions interpreted (for evidence)
-	globals map[types.Object]*Cell
+	D          *Dom
+	Prog       *load.Program
+	funcs      map[types.Object]funcInfo
+	live       Node
+	logs       []map[*Cell]Value // write logs of the enclosing symbolic branches
+	frames     []*frame
+	depth      int
+	Steps      int
+	Called     map[string]bool // functions interpreted (for evidence)
+	globals    map[types.Object]*Cell
 	opaqueIDs  map[string]int
 	OpaqueDesc map[int]OpaqueTerm
 	// Hook lets a client intercept calls (return handled=true to supply the result).
@@ -82,7 +82,7 @@ func (in *Interp) fail(n ast.Node, f string, a ...interface{}) {
 	panic(Unsupported{fmt.Sprintf("%s: %s", in.pos(n), fmt.Sprintf(f, a...))})
 }
 
-func (in *Interp) fr() *frame { return in.frames[len(in.frames)-1] }
+func (in *Interp) fr() *frame        { return in.frames[len(in.frames)-1] }
 func (in *Interp) info() *types.Info { return in.fr().pkg.TypesInfo }
 
 // store writes a cell, recording the old value in the innermost branch log.
@@ -401,7 +401,7 @@ func (in *Interp) stmt(s ast.Stmt) {
 			for i, n := range vs.Names {
 				var v Value
 				if i < len(vs.Values) {
-					v = Copy(in.conv(in.expr(vs.Values[i]), info.Defs[n].Type()))
+					v = Copy(in.toType(in.expr(vs.Values[i]), info.TypeOf(vs.Values[i]), info.Defs[n].Type()))
 				} else {
 					v = in.Zero(info.Defs[n].Type())
 				}
@@ -435,7 +435,7 @@ func (in *Interp) stmt(s ast.Stmt) {
 			vals = t
 		} else {
 			for i, r := range x.Results {
-				vals = append(vals, Copy(in.conv(in.expr(r), fr.results.At(i).Type())))
+				vals = append(vals, Copy(in.toType(in.expr(r), info.TypeOf(r), fr.results.At(i).Type())))
 			}
 		}
 		fr.rets = append(fr.rets, retRec{in.live, vals})
@@ -770,21 +770,22 @@ func (in *Interp) dynamic(v Value, at ast.Node) (types.Type, Value) {
 func (in *Interp) assignStmt(x *ast.AssignStmt) {
 	info := in.info()
 	define := x.Tok == token.DEFINE
-	setTo := func(l ast.Expr, v Value) {
+	setToT := func(l ast.Expr, v Value, from types.Type) {
 		if id, ok := l.(*ast.Ident); ok {
 			if id.Name == "_" {
 				return
 			}
 			if define {
 				if o := info.Defs[id]; o != nil {
-					in.fr().env[o] = &Cell{Copy(in.conv(v, o.Type()))}
+					in.fr().env[o] = &Cell{Copy(in.toType(v, from, o.Type()))}
 					return
 				}
 			}
 		}
 		t := info.TypeOf(l)
-		in.store(in.lvalue(l), Copy(in.conv(v, t)))
+		in.store(in.lvalue(l), Copy(in.toType(v, from, t)))
 	}
+	setTo := func(l ast.Expr, v Value) { setToT(l, v, nil) }
 	if len(x.Lhs) > 1 && len(x.Rhs) == 1 {
 		var t Tuple
 		switch r := x.Rhs[0].(type) {
@@ -824,7 +825,7 @@ func (in *Interp) assignStmt(x *ast.AssignStmt) {
 		vals[i] = v
 	}
 	for i, l := range x.Lhs {
-		setTo(l, vals[i])
+		setToT(l, vals[i], info.TypeOf(x.Rhs[i]))
 	}
 }
 
@@ -1077,6 +1078,8 @@ func (in *Interp) Try(f func()) (err error) {
 			case Unsupported:
 				err = e
 			case BudgetExceeded:
+				err = e
+			case SplitRequest:
 				err = e
 			default:
 				panic(r)
